@@ -71,6 +71,10 @@ CHECKS = {
          "Seeded store names/descriptions from an adversarial dictionary (metadata field names, JSON fragments, unicode, long), all option combinations, 1-12 commits with cold reopen; StoreInfo must equal the creation-time one in every creation option, Count and contents must equal the model.",
          "Trusted: simulator, model. The harness inspects storeinfo.txt before opening a store so that a corrupted slot_length is reported instead of exhausting memory.",
          "7/C13"),
+ "C14": (EXPL, "deterministic simulation (single task): seeded lifecycle call sequences x store operations x transaction modes against a lifecycle state machine, cold read-back of contents and store list",
+         "Seeded sequences of 3-15 calls (Begin, Commit, Rollback, Phase1Commit, Phase2Commit, Close, OpenBtree, NewBtree, Add, Update, Upsert, Remove, Find, Get) on one transaction per mode; a state machine decides which calls may report success; afterwards a cold process reads the store and the store list, which must show changes only from a writer that committed.",
+         "Trusted: simulator, the lifecycle state machine of the check. Calls made between Phase1Commit and Phase2Commit are not judged (the property does not say whether they belong to the commit). No schedule dimension: the property quantifies over programs; the simulator supplies the disk, the cold restart and the seeded sampling.",
+         "7/C14"),
  "C15": (EXPL, "deterministic simulation: 2-4 contending writers with opposite key orders under seeded schedules, simulated clock, lock holders stalled by the simulator; commit-duration, no-livelock and follow-up-commit oracle",
          "2-4 concurrent writers over 4-8 overlapping keys in 1-2 stores (even/odd writers in opposite key order), maxTime 2 s..2 min, caller deadlines 1..300 s, one writer stalled for 1.5 s..10 min at a PRNG-chosen call of its commit in half of the runs. Every non-stalled Commit must return within min(deadline, maxTime) + max(5 s, 25%) of simulated time, the scheduler step cap must not be hit, and a follow-up transaction on the same keys must commit within 30 simulated seconds.",
          "Trusted: simulator (every timer and deadline of the instrumented packages reads the simulated clock). A lock holder that DIES is only covered as a whole-process crash by C08/C09 (standalone mode has one process); the clustered variant with a separate lock service is not covered. The allowance is a stated bound of the check, not an implementation constant.",
